@@ -955,6 +955,8 @@ impl<'a> RepositoryUpdate<'a> {
         //     temp file and replace it with something new and we will now
         //     copy that to the final location.
 
+        #[cfg(feature = "verif-hooks")]
+        crate::verif::kill_point("rrdp.snapshot.before_remove");
         if let Err(err) = fs::remove_file(self.path.as_ref()) {
             if !matches!(err.kind(), io::ErrorKind::NotFound) {
                 error!(
@@ -966,6 +968,8 @@ impl<'a> RepositoryUpdate<'a> {
             }
         }
         drop(archive);
+        #[cfg(feature = "verif-hooks")]
+        crate::verif::kill_point("rrdp.snapshot.before_rename");
         if let Err(err) = fs::rename(path.as_ref(), self.path.as_ref()) {
             error!(
                 "Fatal: Failed to move new RRDP repository file {} to {}: {}",
@@ -974,6 +978,8 @@ impl<'a> RepositoryUpdate<'a> {
             return Err(RunFailed::fatal())
         }
 
+        #[cfg(feature = "verif-hooks")]
+        crate::verif::kill_point("rrdp.snapshot.after_rename");
         self.log.debug(format_args!("snapshot update completed."));
         Ok(true)
     }
